@@ -53,20 +53,21 @@ RUNTIME_TRUST = ["sync.Mutex / sync.WaitGroup / context cancellation / go statem
 PROPS = {
     "C01": {
         "inventory_closure": True,
-        "lean": ["GldapModel.Props.C01"],
-        "audit": "GldapModel/Audit/C01.lean",
+        "lean": ["GldapModel.Props.C01", "GldapModel.Props.Session"],
+        "audit": ["GldapModel/Audit/C01.lean", "GldapModel/Audit/Session.lean"],
         "inventory": DECODE_FUNCS + ["conn.serveRequests", "conn.readRequest", "conn.readPacket"],
         "streams": [
             {"stream": "decode-valid", "n_quick": 20000, "n_thorough": 2000000},
             {"stream": "clientwire", "n_quick": 1500, "n_thorough": 100000},
             {"stream": "c13", "n_quick": 8, "n_thorough": 100, "timeout_quick": 900, "timeout_thorough": 6000},
+            {"stream": "session", "n_quick": 400, "n_thorough": 40000, "timeout_quick": 900, "timeout_thorough": 6000},
         ],
         "trusted": BER_TRUST,
         "assumptions": ["filters are compared semantically: the delivered filter string must recompile to the client's filter bytes"],
     },
     "C03": {
-        "lean": ["GldapModel.Props.C03"],
-        "audit": "GldapModel/Audit/C03.lean",
+        "lean": ["GldapModel.Props.C03", "GldapModel.Props.Session"],
+        "audit": ["GldapModel/Audit/C03.lean", "GldapModel/Audit/Session.lean"],
         "inventory": ["Mux.serve", "responseApplicationCode", "Mux.Bind", "Mux.Unbind", "Mux.Search", "Mux.ExtendedOperation",
                       "Mux.Modify", "Mux.Add", "Mux.Delete", "Mux.DefaultRoute", "NewMux", "baseRoute.handler", "baseRoute.op",
                       "baseRoute.match", "deleteRoute.match", "addRoute.match", "modifyRoute.match", "simpleBindRoute.match",
@@ -75,17 +76,19 @@ PROPS = {
         "streams": [
             {"stream": "mux", "n_quick": 30000, "n_thorough": 1500000},
             {"stream": "c06", "n_quick": 12, "n_thorough": 300, "timeout_quick": 900, "timeout_thorough": 6000},
+            {"stream": "session", "n_quick": 600, "n_thorough": 60000, "timeout_quick": 900, "timeout_thorough": 6000},
         ],
         "trusted": BER_TRUST + ["strings.EqualFold modelled for ASCII only (criteria alphabets are ASCII)"],
         "assumptions": ["route criteria and request strings are ASCII in the theorems' EqualFold model"],
     },
     "C04": {
         "inventory_closure": True,
-        "lean": ["GldapModel.Props.C04"],
-        "audit": "GldapModel/Audit/C04.lean",
+        "lean": ["GldapModel.Props.C04", "GldapModel.Props.Session"],
+        "audit": ["GldapModel/Audit/C04.lean", "GldapModel/Audit/Session.lean"],
         "inventory": RESPONSE_FUNCS,
         "streams": [
             {"stream": "resp", "n_quick": 20000, "n_thorough": 2000000},
+            {"stream": "session", "n_quick": 600, "n_thorough": 60000, "timeout_quick": 900, "timeout_thorough": 6000},
         ],
         "trusted": BER_TRUST + ["bufio.Writer into a bytes.Buffer (Write+Flush delivers exactly the bytes written)"],
         "assumptions": ["WithAttributes maps are restricted to at most one key in the byte-exact stream, because Go map iteration order is random; multi-key maps are covered by the newentry stream and by the multiset oracle"],
@@ -173,9 +176,11 @@ PROPS = {
         "assumptions": ["scope: one Run per Server (the counter is local to Run)"],
     },
     "C10": {
-        "lean": ["GldapModel.Props.C10"], "audit": "GldapModel/Audit/C10.lean",
+        "lean": ["GldapModel.Props.C10", "GldapModel.Props.Session"],
+        "audit": ["GldapModel/Audit/C10.lean", "GldapModel/Audit/Session.lean"],
         "inventory": ["conn.serveRequests", "conn.close", "Mux.Unbind"],
-        "streams": [{"stream": "c10", "n_quick": 40, "n_thorough": 2000, "timeout_quick": 900, "timeout_thorough": 6000}],
+        "streams": [{"stream": "c10", "n_quick": 40, "n_thorough": 2000, "timeout_quick": 900, "timeout_thorough": 6000},
+                    {"stream": "session", "n_quick": 400, "n_thorough": 40000, "timeout_quick": 900, "timeout_thorough": 6000}],
         "trusted": RUNTIME_TRUST, "assumptions": [],
     },
     "C11": {
